@@ -400,6 +400,7 @@ var stmtPool = []string{
 	"add_key(ts, \"2021-05-27 06:54:14.760 UTC\")\ndefault_time(ts)", "add_key(ts, \"1600000123\")\ndefault_time(ts)", "add_key(ts, \"2014-04-26 13:13:43 +0800\")\ndefault_time(ts, \"+8\")", "default_time(message)",
 	"x = len(message)\nadd_key(x)", "if n == 3 { add_key(three, true) } else { add_key(three, false) }", "for i in [1, 2] { add_key(last, i) }",
 	"add_key(time, 1600000000123456789)", "add_key(time, \"not an int\")", "rename(time, n)", "cast(time, \"int\")",
+	"add_key(nilkey, nil)", "nv = nil\nadd_key(nv)", "add_key(emptystr, \"\")", "add_key(zero, 0)", "add_key(f0, 0.0)", "add_key(no, false)", "add_key(m, {\"a\": nil})", "add_key(message, nil)", "set_tag(emptytag, \"\")",
 	"grok(_, \"%{WORD:w1} %{WORD:w2}\")", "grok(msg, \"%{WORD:first}\")", "printf(\"%v\\n\", message)", "exit()\nadd_key(never, 1)",
 }
 
@@ -424,7 +425,7 @@ var textInputs = []string{"hello world", "two words here", "", "  padded  ", "h√
 func genCase(t *rapid.T) (*tcase, bool, []string) {
 	c := &tcase{Scripts: map[string]string{}, Other: map[string]string{}}
 	ext := rapid.SampledFrom([]string{".p", ".ppl"}).Draw(t, "ext")
-	c.Name = "main" + ext
+	c.Name = rapid.SampledFrom([]string{"main", "main", "main.v2", "x.y.z", "my-script_1", "UPPER"}).Draw(t, "base") + ext
 	var lines []string
 	nontrivial := false
 	var labels []string
@@ -448,7 +449,7 @@ func genCase(t *rapid.T) (*tcase, bool, []string) {
 		labels = append(labels, "script/fails-at-load")
 	case 2, 3:
 		if c.Mode == "workspace" {
-			sib := "sib" + rapid.SampledFrom([]string{".p", ".ppl"}).Draw(t, "sibext")
+			sib := rapid.SampledFrom([]string{"sib", "sib.lib", "main.sib"}).Draw(t, "sibbase") + rapid.SampledFrom([]string{".p", ".ppl"}).Draw(t, "sibext")
 			c.Scripts[sib] = rapid.SampledFrom([]string{"add_key(from_sibling, 1)\nset_measurement(\"sibm\")", "set_tag(sibtag, \"s\")", "x = 1 + \"a\"", "exit()\nadd_key(never2, 1)", "add_key(ts2, \"1600000999\")\ndefault_time(ts2)"}).Draw(t, "sibbody")
 			at := rapid.IntRange(0, len(lines)).Draw(t, "useat")
 			lines = append(lines[:at:at], append([]string{fmt.Sprintf("use(%q)", sib)}, lines[at:]...)...)
